@@ -814,6 +814,226 @@ pub fn packs(oracle: &'static str) -> Vec<TableModel> {
     ]
 }
 
+// ---------------------------------------------------------------------------
+// Cross-family model: two families in one Table, per-family deferral, a next
+// hop shared across families.  Catches per-family state that is wrongly
+// applied table-wide (or vice versa).
+
+#[derive(Clone, Debug)]
+pub enum Op2 {
+    Insert { peer: u8, fam: u8, attr: u8 },
+    Remove { peer: u8, fam: u8 },
+    Drop { peer: u8 },
+    NhValid { up: bool },
+    StartDeferral(u8),
+    EndDeferral(u8),
+}
+
+pub struct TwoFamModel {
+    pub ops: Vec<Op2>,
+}
+
+pub struct Sys2 {
+    t: Table,
+    src: [Arc<Source>; 2],
+    pool: Vec<Arc<Vec<Attribute>>>,
+    nh_down: bool,
+    deferring: [bool; 2],
+    ever: [bool; 2],
+    best_view: BTreeMap<String, Snap>,
+    ap_view: BTreeMap<String, Vec<Snap>>,
+    broken: BTreeSet<String>,
+}
+
+const FAMS2: [Family; 2] = [Family::IPV4, Family::IPV6];
+
+fn net2(f: u8) -> Nlri {
+    if f == 0 { v4(10, 9, 0, 0, 24) } else { v6(9, 48) }
+}
+
+impl Model for TwoFamModel {
+    type Sys = Sys2;
+    fn name(&self) -> String {
+        "c06-twofam".into()
+    }
+    fn n_ops(&self) -> usize {
+        self.ops.len()
+    }
+    fn op_name(&self, op: usize) -> String {
+        let p = |x: &u8| ["A", "B"][*x as usize];
+        let f = |x: &u8| ["v4", "v6"][*x as usize];
+        match &self.ops[op] {
+            Op2::Insert { peer, fam, attr } => format!("insert({},{},{})", p(peer), f(fam), ATTR_NAMES[*attr as usize]),
+            Op2::Remove { peer, fam } => format!("remove({},{})", p(peer), f(fam)),
+            Op2::Drop { peer } => format!("drop({})", p(peer)),
+            Op2::NhValid { up } => format!("nexthop(N1,{})", if *up { "up" } else { "down" }),
+            Op2::StartDeferral(x) => format!("start_deferral({})", f(x)),
+            Op2::EndDeferral(x) => format!("end_deferral({})", f(x)),
+        }
+    }
+    fn init(&self) -> Sys2 {
+        Sys2 {
+            t: Table::new(0),
+            src: [mk_source(0), mk_source(1)],
+            pool: (0..5).map(|i| Arc::new(attr_content(i))).collect(),
+            nh_down: false,
+            deferring: [false; 2],
+            ever: [false; 2],
+            best_view: BTreeMap::new(),
+            ap_view: BTreeMap::new(),
+            broken: BTreeSet::new(),
+        }
+    }
+    fn step(&self, sys: &mut Sys2, op: usize, out: &mut Vec<(String, String)>) -> bool {
+        let name = self.op_name(op);
+        let mut changes: Vec<NlriChange> = Vec::new();
+        match &self.ops[op] {
+            Op2::Insert { peer, fam, attr } => {
+                let r = sys.t.insert(sys.src[*peer as usize].clone(), FAMS2[*fam as usize], net2(*fam), 0, nh4(1), sys.pool[*attr as usize].clone(), None, false, sys.nh_down, None, 0);
+                if let InsertResult::Changed(c) = r {
+                    changes.push(c);
+                }
+            }
+            Op2::Remove { peer, fam } => {
+                let (c, _) = sys.t.remove(sys.src[*peer as usize].clone(), FAMS2[*fam as usize], net2(*fam), 0, None);
+                changes.extend(c);
+            }
+            Op2::Drop { peer } => {
+                let addr = sys.src[*peer as usize].remote_addr;
+                for f in FAMS2 {
+                    let (cs, _) = sys.t.drop(addr, f);
+                    changes.extend(cs);
+                }
+                sys.src[*peer as usize] = mk_source(*peer);
+            }
+            Op2::NhValid { up } => {
+                if *up != sys.nh_down {
+                    return false;
+                }
+                sys.nh_down = !*up;
+                changes.extend(sys.t.update_nexthop_validity(nh4(1).unwrap().addr(), *up));
+            }
+            Op2::StartDeferral(f) => {
+                let i = *f as usize;
+                if sys.deferring[i] || sys.ever[i] || sys.t.state(FAMS2[i]).num_destination != 0 {
+                    return false;
+                }
+                sys.t.start_deferral(FAMS2[i]);
+                sys.deferring[i] = true;
+                sys.ever[i] = true;
+            }
+            Op2::EndDeferral(f) => {
+                let i = *f as usize;
+                if !sys.deferring[i] {
+                    return false;
+                }
+                changes.extend(sys.t.end_deferral(FAMS2[i]));
+                sys.deferring[i] = false;
+            }
+        }
+        for c in &changes {
+            let key = format!("{}", c.net);
+            if c.best_changed {
+                match c.new_best() {
+                    Some(p) => {
+                        let mut b = snap(p);
+                        b.0 = 0;
+                        sys.best_view.insert(key.clone(), b);
+                    }
+                    None => {
+                        sys.best_view.remove(&key);
+                    }
+                }
+            }
+            if c.any_changed {
+                if c.current_paths.is_empty() {
+                    sys.ap_view.remove(&key);
+                } else {
+                    sys.ap_view.insert(key, c.current_paths.iter().map(snap).collect());
+                }
+            }
+        }
+        let mut cur = Vec::new();
+        for (i, f) in FAMS2.iter().enumerate() {
+            if sys.deferring[i] {
+                continue;
+            }
+            let key = format!("{}", net2(i as u8));
+            let dump = sys.t.collect_loc_rib_paths(f);
+            let best = dump.first().map(|c| {
+                let mut b = snap(c.new_best().unwrap());
+                b.0 = 0;
+                b
+            });
+            let all: Option<Vec<Snap>> = dump.first().map(|c| c.current_paths.iter().map(snap).collect());
+            if sys.best_view.get(&key) != best.as_ref() {
+                cur.push((
+                    format!("C06/best-fold-mismatch/{}/cross-family-{}", op_kind(&name), ["v4", "v6"][i]),
+                    format!("after {name}: folded best for {key} is {:?}, the RIB says {:?}", sys.best_view.get(&key).map(show_snap), best.as_ref().map(show_snap)),
+                ));
+            }
+            if sys.ap_view.get(&key) != all.as_ref() {
+                cur.push((
+                    format!("C06/addpath-fold-mismatch/{}/cross-family-{}", op_kind(&name), ["v4", "v6"][i]),
+                    format!("after {name}: folded ranked list for {key} differs from the RIB's ({} vs {} paths)", sys.ap_view.get(&key).map(|v| v.len()).unwrap_or(0), all.as_ref().map(|v| v.len()).unwrap_or(0)),
+                ));
+            }
+        }
+        let mut now = BTreeSet::new();
+        for (sig, what) in cur {
+            let clause = format!("{}{}", sig.split('/').nth(1).unwrap_or(""), sig.rsplit('-').next().unwrap_or(""));
+            if !sys.broken.contains(&clause) && !now.contains(&clause) {
+                out.push((sig, what));
+            }
+            now.insert(clause);
+        }
+        sys.broken = now;
+        true
+    }
+    fn fingerprint(&self, sys: &Sys2) -> Vec<u8> {
+        use std::fmt::Write;
+        let mut s = String::new();
+        for f in FAMS2 {
+            for d in sys.t.destinations(TableQuery::Global, f, vec![], true) {
+                for p in &d.paths {
+                    let _ = write!(s, "{}:{}:{}:{};", d.net, p.source.remote_addr, bfs::hash128(&attr_bytes(&p.attr)) as u16, p.filtered);
+                }
+            }
+            s.push('|');
+            for c in sys.t.collect_loc_rib_paths(&f) {
+                let _ = write!(s, "{}:{:?};", c.net, c.current_paths.iter().map(|p| (p.local_path_id, p.source.remote_addr)).collect::<Vec<_>>());
+            }
+            s.push('|');
+        }
+        let vs = |x: &Snap| format!("{}:{}:{:?}", x.0, bfs::hash128(&attr_bytes(&x.2)) as u16, x.3.map(|n| n.addr()));
+        let _ = write!(s, "{}{:?}{:?}", sys.nh_down, sys.deferring, sys.ever);
+        for (k, v) in &sys.best_view {
+            let _ = write!(s, "b{k}={}", vs(v));
+        }
+        for (k, v) in &sys.ap_view {
+            let _ = write!(s, "a{k}={:?}", v.iter().map(vs).collect::<Vec<_>>());
+        }
+        let _ = write!(s, "{:?}", sys.broken);
+        s.into_bytes()
+    }
+}
+
+pub fn twofam() -> TwoFamModel {
+    let mut ops = Vec::new();
+    for fam in 0..2u8 {
+        ops.push(Op2::Insert { peer: 0, fam, attr: 0 });
+        ops.push(Op2::Insert { peer: 1, fam, attr: 1 });
+        ops.push(Op2::Remove { peer: 0, fam });
+        ops.push(Op2::Remove { peer: 1, fam });
+        ops.push(Op2::StartDeferral(fam));
+        ops.push(Op2::EndDeferral(fam));
+    }
+    ops.push(Op2::Drop { peer: 0 });
+    ops.push(Op2::NhValid { up: false });
+    ops.push(Op2::NhValid { up: true });
+    TwoFamModel { ops }
+}
+
 pub fn run(oracle: &'static str, replay: Option<&str>) -> Report {
     let mut rep = Report::new(oracle, &format!("hx-{}", oracle.to_lowercase()));
     let models = packs(oracle);
@@ -822,6 +1042,13 @@ pub fn run(oracle: &'static str, replay: Option<&str>) -> Report {
             rep.machinery_error = Some("bad replay case".into());
             return rep;
         };
+        if name == "c06-twofam" {
+            let m = twofam();
+            eprintln!("replay {}", bfs::render(&m, &hist));
+            rep.evaluations = 1;
+            rep.violations_from(bfs::replay(&m, &hist, true));
+            return rep;
+        }
         let Some(m) = models.iter().find(|m| m.name == name) else {
             rep.machinery_error = Some(format!("unknown model {name}"));
             return rep;
@@ -841,6 +1068,10 @@ pub fn run(oracle: &'static str, replay: Option<&str>) -> Report {
     for m in &models {
         let cfg = BfsCfg { max_depth: depth, max_secs: if rep.thorough() { 1500 } else { 40 }, ..Default::default() };
         bfs::bfs(m, &cfg, &mut rep);
+    }
+    if oracle == "C06" {
+        let cfg = BfsCfg { max_depth: depth + 1, max_secs: if rep.thorough() { 600 } else { 20 }, ..Default::default() };
+        bfs::bfs(&twofam(), &cfg, &mut rep);
     }
     rep
 }
